@@ -155,7 +155,8 @@ def run(tier):
                    'distinct generated tuple; json and ojson, string and stream overloads.')
     cov['bounds'] = {c: open(os.path.join(vf.SPEC, c)).read().split('CONSTANTS')[1].split() for c in CFG[tier]}
     cov['samples'] = vf.sample_lines(g[1][1], 2) + vf.sample_lines(g[-1][1], 1)
-    rep.assumptions += [
+    rep.assumptions += ['TOON has a single number kind: an integral double is written with integer digits and read back as an integer, so TOON numbers are compared by value',
+                        
         'scope = Csv!InScope: well-formed options (distinct delimiter/quote/escape, none a space or line break; line_delimiter in LF, CRLF, CR), '
         'rectangular tables with >= 1 row and >= 1 column (RFC 4180 ABNF), unique column names, the proviso (quote_style all/nonnumeric with inference, '
         'or inference off and strings only), quote_style none only for fields that need no quotes',
